@@ -159,6 +159,20 @@ def step (s : St) (w : List String) : St × String :=
           | .err e => (s, s!"R ret={e.name} out=-{tail m m (toString e.code)} | S {sp}")
           | x => (s, s!"R ret={resCode x} out=-{tail m m (resCode x)} | S {sp}")
         | none => (s, "bad-op")
+      | "sappend", [mode] =>
+        if mode ≠ "cobs" ∧ mode ≠ "nl" then (s, "bad-op") else
+        let fmtW (l : List (List Byte)) : String := if l.isEmpty then "-" else ",".intercalate (l.map fun x => s!"msg[{toHex x}]")
+        let r := m.sappend
+        let sp := Flat.sappend d
+        (s, s!"R ret={r.1} wire={fmtW r.2}{tail m m "0"} | S ret={sp.1} wire={fmtW sp.2} ; {toHex d}")
+      | "dhash", [] =>
+        let fmtH (h : Option UInt64) : String := match h with
+          | some v => "ret=called hash=" ++ String.ofList ((List.range 16).reverse.map fun i => hexDigit ((v.toNat >>> (4 * i)) % 16))
+          | none => "ret=refused hash=-"
+        let sp := fmtH (Flat.dhash d)
+        match m.dhash with
+        | .ok h => (s, s!"R {fmtH h}{tail m m (if h.isSome then "0" else "3")} | S {sp} ; {toHex d}")
+        | x => (s, s!"R ret={resCode x} hash=-{tail m m (resCode x)} | S {sp} ; {toHex d}")
       | "append", h :: flag =>
         let failAt : Option Nat := match flag with
           | [] => some 0
